@@ -619,6 +619,55 @@ def mech_cases(chk, work):
                               {"doc": doc, "op": op.label, "value": v, "schema": sch})
 
 
+# ---- mechanism 3b: parts without an example are filled so that required inputs are never missing -------------------
+
+def _req_docs(rng):
+    """bodies assembled from property-level examples, with `required` spread over allOf branches / nested objects"""
+    docs = []
+    for variant in range(6):
+        host = {"type": "string"}
+        port = {"type": "integer", "example": 8080 + variant}
+        first = {"type": "object", "properties": {"host": host}, "required": ["host"]}
+        second = {"type": "object", "properties": {"port": port}, "required": ["port"]}
+        third = {"type": "object", "properties": {"tls": {"type": "boolean"}}, "required": ["tls"]}
+        branches = [first, second, third][: 2 + variant % 2]
+        if variant >= 3:
+            branches = list(reversed(branches))
+        prop = {"allOf": branches}
+        schema = {"type": "object", "properties": {"proxy": prop, "name": {"type": "string", "example": f"N{variant}"}},
+                  "required": ["proxy", "name"] if variant % 2 else ["proxy"]}
+        docs.append(_doc({"/cfg": {"post": {"requestBody": {"required": True, "content": {JSON: {"schema": schema}}},
+                                            "responses": OK200}}}))
+    return docs
+
+
+def mech_required(chk):
+    import jsonschema
+    for doc in _req_docs(chk.rng):
+        schema = schemathesis.openapi.from_dict(doc)
+        op = schema["/cfg"]["POST"]
+        body_schema = doc["paths"]["/cfg"]["post"]["requestBody"]["content"][JSON]["schema"]
+        try:
+            cases = [hex_.generate_one(s) for s in op.get_strategies_from_examples()]
+        except Exception as exc:  # noqa: BLE001
+            cases = []
+            chk.feature("required:raised")
+        chk.case("required:examples-phase-bodies", key=doc, nontrivial=bool(cases),
+                 sample={"schema": body_schema, "bodies": [c.body for c in cases][:3]})
+        for c in cases:
+            missing = [list(e.absolute_path) + [e.message] for e in jsonschema.Draft4Validator(body_schema).iter_errors(c.body)
+                       if e.validator == "required"]
+            # errors inside allOf are reported through their context
+            for e in jsonschema.Draft4Validator(body_schema).iter_errors(c.body):
+                for sub in (e.context or []):
+                    if sub.validator == "required":
+                        missing.append(list(sub.absolute_path) + [sub.message])
+            if missing:
+                chk.violation("C17:examples-phase:required-property-missing-from-a-body-built-around-property-examples",
+                              f"an examples-phase body lacks required properties: {missing[:3]}",
+                              {"schema": body_schema, "body": c.body})
+
+
 # ---- mechanism 4: fill-in and add_examples with scripted inputs ------------------------------------------------------
 
 FILL_DOC = _doc({"/f/{id}": {"get": {"parameters": [
@@ -952,6 +1001,7 @@ def run(chk):
     mech_expand(chk)
     work = mech_documents(chk)
     mech_cases(chk, work)
+    mech_required(chk)
     mech_fill(chk)
     mech_add(chk)
     mech_engine(chk)
